@@ -5,6 +5,20 @@ import json, pathlib
 ALL = [f'C{i:02d}' for i in range(1, 20)]
 
 CHECKS = {
+ 'C06': dict(
+   technique='Coq proof (wall depths form a deltaz-net: Q arithmetic on n_repeat = ceil((h-z_off)/deltaz); chain files hold only moves) + token-level differential of every file of the exported tree + run of the whole tree (FARCALL inlined) on the reference controller + shapely containment of the chains',
+   text='Props/C06.v: passes of a level are deltaz apart, start at z_off, the last pass of each level is within deltaz of the top of '
+        'its box and the next level starts at most deltaz above it, never above the box top - so no depth of the stack is farther '
+        'than deltaz from a wall pass; wall / floor / bed files contain only G1 moves. Tie to /repo: real (U-)trench columns dug '
+        'from generated layouts are exported with random configurations; MAIN.pgm, every FARCALLnnn.pgm and every wall / floor / '
+        'bed file is lexed and compared with the modelled writers (sessions over op lists, export_array2d); the tree is then run '
+        'on the controller model with FARCALL inlining: every called program must be loaded and exist (by exact name), nothing '
+        'stays loaded, the shutter ends closed, is open only inside the chains and during pure z steps, chains are entered at '
+        'their first point, and the open depth levels cover [z_off, nboxz*h_box] with gaps <= deltaz; shapely checks that every '
+        'chain segment lies in its block footprint.',
+   note='Trusted: Coq kernel; lexer; file-name resolution of base_folder in harness/c06.py; shapely containment (2e-5 mm); the '
+        'exposure-structure clause is a run-time monitor plus the token-level tie, not a theorem over all columns.',
+   design='5/C06'),
  'C05': dict(
    technique='Coq proof (stable sort = sorted permutation; removal by number via python del semantics; clearance by the triangle inequality in any metric space) + differential of the list logic with recomputed GEOS blocks + shapely measurements',
    text='Props/C05.v: the blocks are numbered by non-decreasing lowest y and are exactly those the geometry produced; the removal '
